@@ -209,7 +209,7 @@ def normalize(spec):
                      "explicit": explicit, "flags": list(p.get("flags", [])),
                      "deferred": [evidx[x] for x in p.get("deferred", [])],
                      "cond_defer": p.get("cond_defer", -1), "end_events": [], "exit_event": -1,
-                     "irows_raw": list(p.get("internal", [])), "irows": [], "has_data": bool(p.get("data", False)),
+                     "irows_raw": list(p.get("internal", [])), "irows": [], "has_data": bool(p.get("data", False)), "smptr": bool(p.get("smptr", False)),
                      "lib_id": -1}
                 if k == "sub":
                     S["sub"] = midx[arg]
